@@ -18,7 +18,7 @@ func init() {
 		Explanation: "Decides structural necessary conditions of 'batched quorum writes always finish, with quorum per key' in ring.DoBatchWithOptions and batchTracker.record: (R1) the completion latch cannot be armed with a zero count: the wait is unreachable for an empty key list and the pending counter is initialised with the number of keys; " +
 			"(R2) every send on the done/err channels is guarded by the single-winner atomic test and the channels have capacity ≥ 1, so no recording goroutine can block; (R3) on every entry→return path Cleanup is invoked exactly once (directly, or by the one goroutine that first waits for the wait group); " +
 			"(R4) wg.Add(len(instances)) dominates the spawn loop over the same collection and each spawned closure calls the callback once, records, then Done on every path, with the loop instance's own descriptor/indexes/trackers; (R5) fields used by record are atomics or written only before the first spawn; (R6) no error return after the first spawn; " +
-			"(R7) per-instance slices are freshly allocated or appended (no un-capped sub-slice of a shared array); (R8) per-key counters are initialised from the same replication set whose instances are iterated. NOT decided: the quorum arithmetic beyond the decision tables of R10/R11 (orderings of the counters against minSuccess/maxFailures), which of several errors is returned.",
+			"(R7) per-instance slices are freshly allocated or appended (no un-capped sub-slice of a shared array); (R8) per-key counters are initialised from the same replication set whose instances are iterated. Also: (R9) DoBatch is a pure delegation to DoBatchWithOptions (no second batching path); (R12) the default error classifier sees through wrapped errors and is what DoBatch and defaulted options use; (R13) spawners handed to DoBatch never run the workload on the caller's goroutine; the emptiness guard counts every registered instance. NOT decided: the quorum arithmetic beyond the decision tables of R10/R11 (orderings of the counters against minSuccess/maxFailures), which of several errors is returned.",
 	}
 }
 
